@@ -458,6 +458,9 @@ def eval_replace(state, arg):
             try:
                 try:
                     all_st = [s for f in rd.files_of_type() for s in stretches(f.root_element)]
+                    # text the extraction does not show: deleted text, field codes
+                    inv_st = [e.text for f in rd.files_of_type() for e in f.root_element.iter()
+                              if isinstance(e.tag, str) and e.tag.endswith(("}delText", "}instrText")) and e.text]
                 except Exception:  # noqa: BLE001
                     res["features"].append("unreadable")
                     return res
@@ -520,6 +523,19 @@ def eval_replace(state, arg):
                                 ch in MARKER_ALPHABET or ch.isdigit() for ch in sub_):
                             old = sub_
                             new = rng.choice(["a\nb", "1\n2\n3", "a\nb", "X"])
+                            break
+                if all_st and inv_st and rng.random() < 0.35:
+                    # a needle from a visible stretch that ALSO occurs in text the extraction does not show (deleted
+                    # text, a field code), replaced by several lines: nothing may change where the text is not
+                    # shown - a break put there would be extracted as a newline (D33)
+                    for _try in range(20):
+                        st = rng.choice(all_st)
+                        a = rng.randrange(len(st))
+                        sub_ = st[a:a + rng.choice([1, 2, 3])]
+                        if sub_ and any(sub_ in x for x in inv_st):
+                            old = sub_
+                            new = rng.choice(["a\nb", "1\n2\n3", "x\n"])
+                            feats.add("needle_in_invisible_text")
                             break
                 if edge == "needle_in_comment":
                     old = "\ue000"
